@@ -71,6 +71,15 @@ def decl_pairs(tier):
             add("array: stride smaller than element", base, [field("x", [(0, 1)], T_uint(2), array={"k": 2, "stride": 1})], [field("x", [(0, 1)], T_uint(2), array={"k": 2, "stride": 2})])
             add("array: non-contiguous without stride", base, [field("x", [(0, 0), (2, 2)], T_uint(2), array={"k": 2, "stride": None})],
                 [field("x", [(0, 0), (2, 2)], T_uint(2), array={"k": 2, "stride": 1})])
+            # the element-count rule must not depend on how the element's bits are written
+            add("array: one element (range list with stride)", base, [field("x", [(0, 0), (2, 2)], T_uint(2), array={"k": 1, "stride": 4})],
+                [field("x", [(0, 0), (2, 2)], T_uint(2), array={"k": 2, "stride": 1})])
+            add("array: zero elements (range list with stride)", base, [field("x", [(0, 0), (2, 2)], T_uint(2), array={"k": 0, "stride": 4})],
+                [field("x", [(0, 0), (2, 2)], T_uint(2), array={"k": 2, "stride": 1})])
+            add("array: one element (one-entry list with stride)", base, [field("x", [(0, 1)], T_uint(2), array={"k": 1, "stride": 2}, force_list=True)],
+                [field("x", [(0, 1)], T_uint(2), array={"k": 2, "stride": 2}, force_list=True)])
+            add("array: one bool element", base, [field("x", [(1, 1)], T_bool(), array={"k": 1, "stride": None})], [field("x", [(1, 1)], T_bool(), array={"k": 2, "stride": None})])
+            add("array: one element with explicit stride", base, [field("x", [(0, 1)], T_uint(2), array={"k": 1, "stride": 2})], [field("x", [(0, 1)], T_uint(2), array={"k": 2, "stride": 2})])
         if base >= 8:
             add("array: bool stride 0", base, [field("x", [(0, 0)], T_bool(), array={"k": 2, "stride": 0})], [field("x", [(0, 0)], T_bool(), array={"k": 2, "stride": 1})])
         # ---- bounds against the declared base width
